@@ -350,10 +350,20 @@ func c05Pinned(p *prog, which int) {
 	}
 }
 
+// nativeVal: a Go map / slice (the unbound model node stands for the fresh container the library must create for it).
+func (p *prog) nativeVal(kind spec.Kind, fixed bool) model.Val {
+	o := spec.Opts{MaxDepth: 2, MaxWidth: 3, SafeKeys: true}
+	if fixed {
+		o.Root = kind
+	}
+	p.c.Count("native_arguments")
+	return p.h.ModelFromSpec(spec.GenTree(p.r, o))
+}
+
 func c05Add(p *prog, l *model.Node, vals []model.Val) {
 	args := make([]any, len(vals))
 	for i, v := range vals {
-		args[i] = p.h.Arg(v)
+		args[i] = argFor(p.h, v)
 	}
 	var ret at.List
 	p.step("Add", fmt.Sprintf("%s.Add(%s)", l.Name(), showVals(vals)), false, func() {
@@ -373,7 +383,7 @@ func c05Insert(p *prog, l *model.Node, idx int, v model.Val) {
 			copy(l.E[idx+1:], l.E[idx:])
 			l.E[idx] = v
 		}
-		ret = l.List().Insert(idx, p.h.Arg(v))
+		ret = l.List().Insert(idx, argFor(p.h, v))
 	})
 	if !pan {
 		p.expect(p.failed || any(ret) == l.Real, "Insert-return", "the receiver", "another value")
@@ -387,7 +397,7 @@ func c05Replace(p *prog, l *model.Node, idx int, v model.Val) {
 		if !want {
 			l.E[idx] = v
 		}
-		l.List().Replace(idx, p.h.Arg(v))
+		l.List().Replace(idx, argFor(p.h, v))
 	})
 }
 
@@ -486,12 +496,30 @@ func c05Program(p *prog, steps int) {
 			vals := make([]model.Val, k)
 			for i := range vals {
 				vals[i] = p.anyVal(l, 2)
+				if r.Chance(1, 12) {
+					vals[i] = p.nativeVal(spec.Kind(0), false)
+				}
 			}
 			c05Add(p, l, vals)
 		case op < 22:
-			c05Insert(p, l, boundaryIndex(r, n), p.anyVal(l, 2))
+			idx := boundaryIndex(r, n)
+			v := p.anyVal(l, 2)
+			if idx >= 0 && idx <= n && r.Chance(1, 10) {
+				v = p.nativeVal(spec.Kind(0), false)
+			}
+			c05Insert(p, l, idx, v)
 		case op < 30:
-			c05Replace(p, l, boundaryIndex(r, n), p.anyVal(l, 2))
+			idx := boundaryIndex(r, n)
+			v := p.anyVal(l, 2)
+			if idx >= 0 && idx < n && l.E[idx].Ref != nil && r.Chance(1, 2) {
+				// a native Go map / slice written over a slot that holds a container of the matching kind: the slot gets
+				// a fresh container, the old one (usually still reachable elsewhere) keeps its content
+				v = p.nativeVal(l.E[idx].K, true)
+				p.c.Count("native_over_container_replaces")
+			} else if idx >= 0 && idx < n && r.Chance(1, 10) {
+				v = p.nativeVal(spec.Kind(0), false)
+			}
+			c05Replace(p, l, idx, v)
 		case op < 45: // observers with arbitrary arguments
 			c05Observe(p, l)
 		case op < 53: // Delete
